@@ -116,6 +116,10 @@ pub struct C08 {
     /// iter(loader) once (to read min_items), then set_epoch / set_fast_forward, then iter(loader) again
     #[serde(default)]
     pub trainer_pattern: bool,
+    /// every instance except the reference ones stops fetching for `ticks` of virtual time before
+    /// it takes batch number `.0` (a validation run, a checkpoint): seconds, not milliseconds
+    #[serde(default)]
+    pub consumer_pause: Option<(u8, u32)>,
 }
 
 fn tok_cfg(t: &Tok) -> TokenizerConfig {
@@ -506,6 +510,7 @@ impl Scenario for C08 {
             limit,
             variations,
             trainer_pattern: rng.chance(0.5),
+            consumer_pause: if rng.chance(0.2) { Some((rng.below(3) as u8, rng.range(520_000, 6_000_000) as u32)) } else { None },
         }
         .with_batch(&mut rng)
     }
@@ -651,6 +656,12 @@ impl Scenario for C08 {
         if self.epoch > 0 {
             push(&|c| {
                 c.epoch = 0;
+                true
+            });
+        }
+        if self.consumer_pause.is_some() {
+            push(&|c| {
+                c.consumer_pause = None;
                 true
             });
         }
@@ -868,6 +879,10 @@ impl Exec<'_> {
         if pre_iter {
             self.stats.fault("iter_called_before_set_epoch_and_fast_forward");
         }
+        let pause = if inst.label.starts_with('R') { None } else { sc.consumer_pause };
+        if pause.is_some() {
+            self.stats.fault("consumer_pause_of_seconds");
+        }
         type Slot = Arc<Mutex<(Vec<Vec<String>>, Option<String>)>>;
         let slot: Slot = Arc::new(Mutex::new((vec![], None)));
         let slot2 = slot.clone();
@@ -928,6 +943,12 @@ impl Exec<'_> {
             let mut delivered = 0usize;
             let mut bno = 0u64;
             loop {
+                if let Some((at, ticks)) = pause {
+                    if at as u64 == bno {
+                        rt::log(Kind::Idle, ticks as u64, 0);
+                        rt::sleep_ticks(ticks as u64);
+                    }
+                }
                 if let Some(m) = crash_after {
                     if delivered >= m {
                         rt::log(Kind::Fault, 4, delivered as u64);
